@@ -11,8 +11,9 @@ from . import c06
 TRUSTED = [
     "Coq 8.16.1 kernel (coqc)",
     "axioms: none (Print Assumptions: Closed under the global context for every C04 theorem)",
-    "PARTIAL: the theorems cover the sequential validator (no reachable panic site outside `check all its-stave`; the unreachable hint of the ALPIDE decoder; the "
-    "exact conditions of the three stave-level sites; the exit-status range). Termination of the scanner on arbitrary bytes, memory safety of the unsafe blocks, "
+    "PARTIAL: the theorems cover the sequential core: every validator in every mode and the whole `check` run (scanner + dispatcher + validators + collector) reach "
+    "no panic site except Stave::from_feeid's for a packet naming layer 7 (known finding F6); the unreachable hint of the ALPIDE decoder; the handled sites F5/F8/F17 "
+    "(regenerated facts); the exit-status range. Termination of the scanner on arbitrary bytes, the panic site of the frame views, memory safety of the unsafe blocks, "
     "thread behaviour and wall-clock time are decided by running the shipped-profile binary only",
     "gen/extract_facts.py (facts of the validator models); extraction + OCaml driver (`cli` stream: whole-run model incl. panic sites); the rebuilt binary "
     "(release profile: panic = abort, no overflow checks)",
